@@ -604,18 +604,61 @@ def check_termination(cx, cg, fns, rep):
             rep.bad('TERM', f.qname, 'recursion', 'recursive function without a structurally decreasing argument', f.file, f.line)
 
 
+def _idents_in(node):
+    from ..syn import walk_json
+    out = set()
+    for x in walk_json(node):
+        if isinstance(x, dict) and x.get('k') == 'Path' and isinstance(x.get('path'), dict) and len(x['path'].get('segs', ())) == 1:
+            out.add(x['path']['s'])
+        if isinstance(x, dict) and x.get('k') == 'Macro' and isinstance(x.get('mac'), dict):
+            for a in x['mac'].get('args') or []:
+                out |= _idents_in(a)
+    return out
+
+
 def fresh_name_loop_ok(fw, ev, cx=None):
     """while/loop that searches an unused name: the body must extend the candidate (push/push_str/format!/+= 1)
-    on every iteration and the loop must exit through a test of membership in a finite collection."""
+    on every iteration, the loop must exit through a test of membership in a finite collection, and that test must look at the
+    candidate *as extended*: it mentions the variable the body extends, or a value recomputed from it inside the loop (a test of
+    something computed once before the loop never changes its answer)."""
     node = ev.node
-    body_txt = es(node.get('body') or node)
+    body = node.get('body') or node
+    body_txt = es(body)
     grows = any(x in body_txt for x in ('.push(', '.push_str(', 'format!(', '+= 1', 'format_ident!('))
-    tests = any(x in (es(node.get('cond')) if node.get('cond') else body_txt) for x in ('.any(', '.contains(', '.all(', '.iter().find('))
-    if grows and not tests and cx is not None and node.get('cond') is not None:
+    cond = node.get('cond')
+    tests = any(x in (es(cond) if cond else body_txt) for x in ('.any(', '.contains(', '.all(', '.iter().find('))
+    if grows and not tests and cx is not None and cond is not None:
         # the membership test may live in a helper: "some generic parameter is called <candidate>" (finite parameter list)
         from .c19 import exists_param_named
-        tests = exists_param_named(cx, fw, node['cond'], 0, ev.scope) is not None
-    return grows and tests
+        tests = exists_param_named(cx, fw, cond, 0, ev.scope) is not None
+    if not (grows and tests):
+        return False
+    # which variables does the body extend / re-assign?
+    lid = ev.entry['id'] if getattr(ev, 'entry', None) else None
+    inside = [e for e in fw.events if lid is not None and any(c.get('id') == lid for c in e.ctx)]
+    grown = set()
+    for e in inside:
+        if e.kind == 'mcall' and e.method in ('push', 'push_str'):
+            r = strip_refs(e.recv)
+            if r['k'] == 'Path' and len(r['path']['segs']) == 1:
+                grown.add(r['path']['s'])
+        if e.kind == 'assign' and e.target['k'] == 'Path' and len(e.target['path']['segs']) == 1:
+            grown.add(e.target['path']['s'])
+    if not grown:
+        return False
+    # values recomputed inside the loop from a grown variable
+    changed = True
+    derived = set(grown)
+    while changed:
+        changed = False
+        for e in inside:
+            if e.kind == 'let' and e.init is not None and e.defs and (_idents_in(e.init) & derived):
+                for d in e.defs:
+                    if d.name not in derived:
+                        derived.add(d.name)
+                        changed = True
+    test_nodes = [cond] if cond is not None else [e.node.get('cond') for e in inside if e.kind == 'branch' and e.node.get('cond') is not None]
+    return any(_idents_in(t) & derived for t in test_nodes if t is not None)
 
 
 def structurally_decreasing(cx, cg, f):
